@@ -3,12 +3,19 @@
 // A case is a fault scenario: topology, per-host search behaviour and answer, per-(host, request) fetch
 // stream table, and the SET of outcomes the specification allows.  The driver builds scripted
 // pkg/storeapi.StoreApiClient fakes (no seq-db logic: they serve exactly what the case tabulates), runs
-// the real search.Ingestor.Search (ShuffleReplicas=false), reads the merged document iterator to its
+// the real search.Ingestor.Search (ShuffleReplicas as the scenario says), reads the merged document iterator to its
 // end and requires the observed outcome (error class | partial | complete, IDs with the host each ID was
 // fetched from, documents position by position, number of store-side errors) to be a member of the
 // allowed set.  With -paths api the same scenario is also sent through the proxy's real gRPC API
 // (proxyapi.NewIngestor + Search/ComplexSearch over localhost sockets, the fakes then being real gRPC
 // StoreApi servers) and error / partial_response / docs are checked against the same set.
+//
+// With -conc the cases are not replayed one Ingestor each: all scenarios of one configuration (topology,
+// HotReadStores, ShuffleReplicas) are searches of ONE search.Ingestor, as in a running proxy, issued at the
+// same time from -workers goroutines (the fakes learn from the call's context which scenario a call belongs
+// to).  Every outcome must be a member of its scenario's allowed set, no search may ask a host twice, and
+// afterwards the replica lists of the configuration must still be the lists of the case (ProxyRead.tla
+// Part 4: ReplicaSetConstant, ShardEachOnce, ShardHonest, ShardSummary).
 package main
 
 import (
@@ -145,6 +152,7 @@ type Case struct {
 	Hot     [][]string `json:"hot"`
 	Cold    [][]string `json:"cold"`
 	HotRead bool       `json:"hotread"`
+	Shuffle bool       `json:"shuffle"` // config.ShuffleReplicas
 	Req     struct {
 		Size   int    `json:"size"`
 		Offset int    `json:"offset"`
@@ -374,7 +382,7 @@ func searchConfig(c *Case, name func(string) string) search.Config {
 		}
 		return s
 	}
-	cfg := search.Config{ReadStores: mk(c.Cold), WriteStores: mk(c.Cold), ShuffleReplicas: false}
+	cfg := search.Config{ReadStores: mk(c.Cold), WriteStores: mk(c.Cold), ShuffleReplicas: c.Shuffle}
 	if c.HotRead {
 		cfg.HotStores = mk([][]string{{decoyHost}})
 		cfg.HotReadStores = mk(c.Hot)
@@ -426,13 +434,20 @@ func runIngestor(c *Case, variant int) (out Outcome) {
 func runSearch(c *Case, r *run, clients map[string]pb.StoreApiClient, from, to uint64,
 	absMID func(uint64) uint64, absDoc func(string) string) (out Outcome) {
 	ing := search.NewIngestor(searchConfig(c, func(h string) string { return h }), clients)
+	return runSearchOn(context.Background(), ing, c, r, from, to, absMID, absDoc)
+}
+
+func runSearchOn(ctx context.Context, ing *search.Ingestor, c *Case, r *run, from, to uint64,
+	absMID func(uint64) uint64, absDoc func(string) string) (out Outcome) {
 	defer func() {
 		if p := recover(); p != nil {
 			out = Outcome{Kind: "error", Cls: "panic", Err: fmt.Sprint(p)}
 		}
-		out.Problems = r.problems
+		r.mu.Lock()
+		out.Problems = append([]string(nil), r.problems...)
+		r.mu.Unlock()
 	}()
-	qpr, docs, _, err := ing.Search(context.Background(), &search.SearchRequest{
+	qpr, docs, _, err := ing.Search(ctx, &search.SearchRequest{
 		Q: []byte(r.query), From: seq.MID(from), To: seq.MID(to), Size: c.Req.Size, Offset: c.Req.Offset,
 		ShouldFetch: true, Order: order(c),
 	}, nil)
@@ -488,6 +503,132 @@ func runSearch(c *Case, r *run, clients map[string]pb.StoreApiClient, from, to u
 		o.IDs[i].Host = r.hostOf(ID{o.IDs[i].MID, o.IDs[i].RID})
 	}
 	return o
+}
+
+// ---------------------------------------------------------------- -conc: one Ingestor, many searches at once
+
+type runKey struct{}
+
+// concClient is a host of the shared Ingestor; which scenario it plays is decided per call
+type concClient struct {
+	pb.StoreApiClient
+	host string
+}
+
+func runOf(ctx context.Context) *run {
+	r, _ := ctx.Value(runKey{}).(*run)
+	return r
+}
+
+func (f *concClient) Search(ctx context.Context, in *pb.SearchRequest, _ ...grpc.CallOption) (*pb.SearchResponse, error) {
+	r := runOf(ctx)
+	if r == nil {
+		return nil, status.Error(codes.Unavailable, "call without a scenario")
+	}
+	return r.doSearch(f.host, in)
+}
+
+func (f *concClient) Fetch(ctx context.Context, in *pb.FetchRequest, _ ...grpc.CallOption) (pb.StoreApi_FetchClient, error) {
+	r := runOf(ctx)
+	if r == nil {
+		return nil, status.Error(codes.Unavailable, "call without a scenario")
+	}
+	e, err := r.doFetch(f.host, in)
+	if err != nil {
+		return nil, err
+	}
+	return &fakeStream{e: e}, nil
+}
+
+func sortedLists(st *stores.Stores) [][]string {
+	if st == nil {
+		return nil
+	}
+	out := make([][]string, len(st.Shards))
+	for i, sh := range st.Shards {
+		out[i] = append([]string{}, sh...)
+		sort.Strings(out[i])
+	}
+	return out
+}
+
+func replicaLists(cfg search.Config) map[string][][]string {
+	return map[string][][]string{"HotStores": sortedLists(cfg.HotStores), "HotReadStores": sortedLists(cfg.HotReadStores),
+		"ReadStores": sortedLists(cfg.ReadStores), "WriteStores": sortedLists(cfg.WriteStores)}
+}
+
+type concStats struct {
+	groups, searches int64
+}
+
+// runConc replays the cases ns (all of one configuration) as concurrent searches of one Ingestor: `reps`
+// passes over all of them, then further passes until at least minSearches searches were made, then one
+// last pass.  bad(n, case, outcome, class) is called at most once per case, for at most 8 cases.
+func runConc(cases []*Case, ns []int, workers, reps, minSearches int, st *concStats,
+	bad func(n int, c *Case, o Outcome, cls string), badCfg func(n int, got, exp any)) {
+	c0 := cases[ns[0]]
+	id := func(h string) string { return h }
+	cfg := searchConfig(c0, id)
+	clients := map[string]pb.StoreApiClient{}
+	for h := range c0.SB {
+		clients[h] = &concClient{host: h}
+	}
+	if c0.HotRead {
+		clients[decoyHost] = &concClient{host: decoyHost}
+	}
+	ing := search.NewIngestor(cfg, clients)
+	reported := make([]atomic.Bool, len(ns))
+	var done, nbad atomic.Int64 // at most 8 scenarios are reported per configuration
+	pass := func() {
+		var wg sync.WaitGroup
+		ch := make(chan int, 256)
+		for w := 0; w < workers; w++ {
+			wg.Add(1)
+			go func() {
+				defer wg.Done()
+				for k := range ch {
+					c := cases[ns[k]]
+					r := newRun(c)
+					ctx := context.WithValue(context.Background(), runKey{}, r)
+					o := runSearchOn(ctx, ing, c, r, 1, 1000, func(x uint64) uint64 { return x }, func(d string) string { return d })
+					done.Add(1)
+					// the outcome first: a shard given up although one of its replicas answers says more than
+					// "a host was asked twice"
+					probs := o.Problems
+					o.Problems = nil
+					cls, _ := judgeAlt(c, o, false)
+					if cls == "" && len(probs) > 0 {
+						cls = "fake-protocol"
+					}
+					o.Problems = probs
+					if cls != "" && reported[k].CompareAndSwap(false, true) && nbad.Add(1) <= 8 {
+						bad(ns[k], c, o, cls)
+					}
+				}
+			}()
+		}
+		for k := range ns {
+			ch <- k
+		}
+		close(ch)
+		wg.Wait()
+	}
+	for i := 0; i < reps; i++ {
+		pass()
+	}
+	for done.Load() < int64(minSearches) {
+		pass()
+	}
+	pass()
+	atomic.AddInt64(&st.groups, 1)
+	atomic.AddInt64(&st.searches, done.Load())
+	// ReplicaSetConstant: the lists the proxy works with are still the lists of the case
+	got, exp := replicaLists(cfg), replicaLists(searchConfig(c0, id))
+	gb, _ := json.Marshal(got)
+	eb, _ := json.Marshal(exp)
+	if string(gb) != string(eb) {
+		badCfg(ns[0], got, exp)
+	}
 }
 
 // ---------------------------------------------------------------- family "store": a real store as the hot shard
@@ -827,7 +968,7 @@ func (e *apiEnv) hostAddr(h string) (string, error) {
 }
 
 func topoKey(c *Case) string {
-	b, _ := json.Marshal([]any{c.Hot, c.Cold, c.HotRead})
+	b, _ := json.Marshal([]any{c.Hot, c.Cold, c.HotRead, c.Shuffle})
 	return string(b)
 }
 
@@ -985,10 +1126,13 @@ func main() {
 	paths := flag.String("paths", "ingestor", "ingestor,api")
 	apiEvery := flag.Int("api-every", 1, "run the api path on every k-th case")
 	statsPath := flag.String("stats", "", "append one JSON line of run statistics to this file")
+	conc := flag.Bool("conc", false, "replay the cases of one configuration as concurrent searches of one Ingestor")
+	concReps := flag.Int("conc-reps", 3, "")
+	concMin := flag.Int("conc-min", 20000, "at least this many searches per configuration")
 	flag.Parse()
 	logger.SetLevel(zapcore.FatalLevel)
-	doIng := strings.Contains(*paths, "ingestor")
-	doAPI := strings.Contains(*paths, "api")
+	doIng := strings.Contains(*paths, "ingestor") && !*conc
+	doAPI := strings.Contains(*paths, "api") && !*conc
 	var mu sync.Mutex
 	sc := bufio.NewScanner(os.Stdin)
 	sc.Buffer(make([]byte, 1<<20), 1<<28)
@@ -1074,6 +1218,37 @@ func main() {
 			wg.Wait()
 		}
 	}
+	var cst concStats
+	if *conc {
+		groups := map[string][]int{}
+		var keys []string
+		for n, c := range cases {
+			if c.realStore() {
+				continue
+			}
+			k := topoKey(c)
+			if _, ok := groups[k]; !ok {
+				keys = append(keys, k)
+			}
+			groups[k] = append(groups[k], n)
+		}
+		for _, k := range keys {
+			ns := groups[k]
+			if *progress {
+				emit(&mu, map[string]any{"begin": ns[0], "form": "conc"})
+			}
+			runConc(cases, ns, *workers, *concReps, *concMin, &cst,
+				func(n int, c *Case, o Outcome, cls string) { report(&mu, n, "conc", c, o, cls) },
+				func(n int, got, exp any) {
+					emit(&mu, map[string]any{"n": n, "path": "conc", "what": "replica-set",
+						"sig": fmt.Sprintf("replica-set:shuffle=%v", cases[n].Shuffle), "got": got, "exp": exp})
+				})
+			if *progress {
+				emit(&mu, map[string]any{"end": ns[0]})
+			}
+		}
+		evals += cst.searches
+	}
 	storeRuns := 0
 	if doIng {
 		for n, c := range cases {
@@ -1129,11 +1304,13 @@ func main() {
 	}
 	if *statsPath != "" {
 		if fh, err := os.OpenFile(*statsPath, os.O_APPEND|os.O_CREATE|os.O_WRONLY, 0o644); err == nil {
-			b, _ := json.Marshal(map[string]any{"api": apiRuns, "store": storeRuns, "racing_alts": altsTotal, "racing_alts_seen": altsSeen})
+			b, _ := json.Marshal(map[string]any{"api": apiRuns, "store": storeRuns, "racing_alts": altsTotal, "racing_alts_seen": altsSeen,
+				"conc_groups": cst.groups, "conc_searches": cst.searches})
 			fh.Write(append(b, '\n'))
 			fh.Close()
 		}
 	}
 	emit(&mu, map[string]any{"summary": true, "cases": len(cases), "evals": evals, "nontrivial": nontriv, "corpora": 0,
-		"api": apiRuns, "store": storeRuns, "kinds": kinds, "racing_alts": altsTotal, "racing_alts_seen": altsSeen})
+		"api": apiRuns, "store": storeRuns, "kinds": kinds, "racing_alts": altsTotal, "racing_alts_seen": altsSeen,
+		"conc_groups": cst.groups, "conc_searches": cst.searches})
 }
